@@ -25,6 +25,7 @@ CLAUSE_PROPS = {
     "reward": ["C07"], "compound": ["C07"], "pos": ["C07"], "frames": ["C07"], "track_holdings": ["C07"],
     "broke_traded": ["C09"], "ruin_step": ["C09"], "ended": ["C09"], "done": ["C09"], "signal": ["C09"],
     "roll": ["C11"], "expiry_hold": ["C11"], "env_interest": ["C06"],
+    "clock_full": ["C02", "C04"],     # events stamped after the landing timestep were processed before the call returned
     "out": [],
 }
 
@@ -47,6 +48,15 @@ class Valuer(Feature):
                 self.broker.net_liquidation_value(False)
             except Exception:  # noqa: BLE001 - an unpriceable position: nothing to report
                 pass
+
+
+class WeightChanges(BoxPortfolio):
+    """a user-defined space (the use case named in PortfolioSpace.make_rebalancing_request): an action is a CHANGE of the
+    portfolio weights, so the allocation it denotes is read off the broker when the request is built"""
+
+    def _make_allocation(self, action, broker=None):
+        w = broker.holdings_weights()
+        return [float(w.get(c, 0.0)) + float(a) for c, a in zip(self.contracts, action)]
 
 
 class World:
@@ -105,7 +115,8 @@ class World:
         # every other case a user feature values the account on every quote (a valuation marks the account to market; it is
         # neutral for everything a property speaks of)
         kw = {"state": [Valuer()]} if (len(cfg["events"]) + cfg["lat"] + cfg["delay"]) % 2 == 1 else {}
-        self.env = TradingEnv(action_space=BoxPortfolio(space_contracts, low=-4.0, high=4.0, margin=float(model["thr"]),
+        space_cls = WeightChanges if model.get("relative") else BoxPortfolio
+        self.env = TradingEnv(action_space=space_cls(space_contracts, low=-4.0, high=4.0, margin=float(model["thr"]),
                                                          fractional=bool(model.get("fractional", True)),
                                                          as_weights=model.get("measure", "weight") == "weight"),
                               reward=reward, transmitter=tr, broker_fees=fees, latency=cfg["lat"],
@@ -226,6 +237,13 @@ def compare_step(w, rec, out, val, before):
         if not close(comm, frac(rec["comm"])) or not close(e.profit_on_idle_cash, frac(rec["interest"])):
             fails.append(("track_costs", "entry reports commissions %r and interest %r, spec %s and %s" % (
                 comm, e.profit_on_idle_cash, frac(rec["comm"]), frac(rec["interest"])), ""))
+    # ---- the clock after the call: the stamp of the latest event delivered by the time the call returns (nothing stamped
+    # later than the timestep the call lands on has been processed, whether the episode goes on or has just ended)
+    if out == "ok" and rec.get("now") is not None and rec["now"] >= 0:
+        got_now = int(round((env.now() - w.base).total_seconds()))
+        if got_now != rec["now"]:
+            fails.append(("clock_full", "after the call env.now() is %s (%d s), the latest event the specification has delivered is "
+                                        "stamped %d s" % (env.now(), got_now, rec["now"]), ""))
     # ---- return value: done flag and reward
     if out == "ok":
         done = bool(val[2])
